@@ -409,8 +409,50 @@ namespace
       WP org, ang, off;
       const double o3[3] = {0.25, 0.5, 0.125}, a3[3] = {0.3, 0.2, 0.1}, f3[3] = {1.0, -2.0, 0.5};
       for(int j = 0; j < wd; ++j) { org[j] = o3[j]; ang[j] = a3[j]; off[j] = f3[j]; }
+      ChartHolder<Mesh_> hu; hu.parse(text);      // an untransformed copy for the independent oracle below
       h0.chart->transform(org, ang, off);
       h1.chart->transform(org, ang, off);
+      // independent oracle: T(x) = R (x - origin) + offset with R = Rz(yaw) Ry(pitch) Rx(roll) (2D: rotation by angles[0]) is a rigid
+      // motion, so projection and distance commute with it: project_T(T p) = T project(p), dist_T(T p) = dist(p)
+      if(hu.ok && !dynamic_cast<const Atlas::SurfaceMesh<Mesh_>*>(hu.chart) && hu.chart->can_implicit())
+      {
+        double Rm[3][3] = {{1, 0, 0}, {0, 1, 0}, {0, 0, 1}};
+        if(wd == 2) { Rm[0][0] = std::cos(a3[0]); Rm[0][1] = -std::sin(a3[0]); Rm[1][0] = std::sin(a3[0]); Rm[1][1] = std::cos(a3[0]); }
+        else
+        {
+          const double cy = std::cos(a3[0]), sy = std::sin(a3[0]), cp = std::cos(a3[1]), sp = std::sin(a3[1]), cr = std::cos(a3[2]), sr = std::sin(a3[2]);
+          const double Rz[3][3] = {{cy, -sy, 0}, {sy, cy, 0}, {0, 0, 1}}, Ry[3][3] = {{cp, 0, sp}, {0, 1, 0}, {-sp, 0, cp}}, Rx[3][3] = {{1, 0, 0}, {0, cr, -sr}, {0, sr, cr}};
+          double Tm[3][3];
+          for(int i = 0; i < 3; ++i) for(int j = 0; j < 3; ++j) { Tm[i][j] = 0; for(int k = 0; k < 3; ++k) Tm[i][j] += Rz[i][k] * Ry[k][j]; }
+          for(int i = 0; i < 3; ++i) for(int j = 0; j < 3; ++j) { Rm[i][j] = 0; for(int k = 0; k < 3; ++k) Rm[i][j] += Tm[i][k] * Rx[k][j]; }
+        }
+        auto Tf = [&](const WP& x) { WP y; for(int i = 0; i < wd; ++i) { y[i] = f3[i]; for(int j = 0; j < wd; ++j) y[i] += Rm[i][j] * (x[j] - o3[j]); } return y; };
+        std::string dt;
+        const double keep = g_near_tol; g_near_tol = 1e-9;
+        for(int i = 0; i < 6 && dt.empty(); ++i)
+        {
+          WP p; for(int j = 0; j < wd; ++j) p[j] = pts[i][j];
+          WP tq = Tf(hu.chart->project(p)), qt = h0.chart->project(Tf(p));
+          for(int j = 0; j < wd; ++j) if(!near(tq[j], qt[j])) dt = "project does not commute with the rigid motion at probe " + itos(i) + " component " + itos(j) + ": " + std::to_string(tq[j]) + " vs " + std::to_string(qt[j]);
+          if(dt.empty() && !near(hu.chart->dist(p), h0.chart->dist(Tf(p)))) dt = "dist changes under the rigid motion at probe " + itos(i);
+          c.count("chart_probe_evaluations", 2);
+        }
+        // (not for circles with a parameter domain: Circle::transform adds the rotation angle to the parameter offset without dividing by
+        //  the domain scaling, so the parametrisation only moves correctly for domains of length 2*pi - geometry observation, reported
+        //  with spec/proposed_fixes/circle_transform_domain.patch)
+        if(hu.chart->can_explicit() && h0.chart->can_explicit() && label.find("circle") == std::string::npos)
+          for(double t : {0.0, 0.5, 1.0, 1.75, 2.5})
+          {
+            if(!dt.empty()) break;
+            // the parametrisation moves with the chart: map_T(t) = T map(t) (an extruded parameter has the height as second component)
+            WP prm; for(int j = 0; j < wd; ++j) prm[j] = 0.0; prm[0] = t; if(wd > 2) prm[1] = 0.375;
+            WP tq = Tf(hu.chart->map(prm)), qt = h0.chart->map(prm);
+            for(int j = 0; j < wd; ++j) if(!near(tq[j], qt[j])) dt = "map(" + g6(t) + ") does not move with the rigid motion, component " + itos(j) + ": " + std::to_string(tq[j]) + " vs " + std::to_string(qt[j]);
+            c.count("chart_probe_evaluations");
+          }
+        g_near_tol = keep;
+        c.check(dt.empty(), key + " :: transform", [&]{ return "transform(origin, angles, offset) is not the rigid motion R(x-origin)+offset: " + dt; });
+      }
       std::string d2 = geom(*h0.chart, *h1.chart);
       c.check(d2.empty(), key + " :: transformed-geometry", [&]{ return "after transform() the original and the re-parsed chart differ: " + d2; });
       std::ostringstream t0; { MeshFileWriter w(t0); w.write(&h0.node, &h0.atlas, &h0.ps); }
@@ -498,7 +540,9 @@ int main(int argc, char** argv)
     "property-map trees that the documented format cannot express (value containing '#', ending in '&', key containing '=' or '#', leading/trailing blanks, '[..]' look-alikes) are counted as excluded",
     "not exercised (outside the file-format property): SurfaceMesh::project/dist/find_cell (abort for generic points; the triangulation is compared instead), Xml::DumpParser (debug printer), "
     "String::pad_front/pad_back/replace_all/is_one_of/parse(bool)/stringify (general utilities), PartitionSet::find_partition (partition selection, C12), Graph::permute_indices (C19), Bezier construction setters, "
-    "TopoParseHelper<Shape,0> (unreachable 'thou shall not arrive here')",
+    "TopoParseHelper<Shape,0> (unreachable 'thou shall not arrive here'), ChartCRTP::adapt(MeshPart&, MeshPart&) (XABORTM stub); the adaption oracle (vertices of a chart-linked part lie on the chart) is not applied to an "
+    "Extrude chart with non-zero origin: Extrude::transform_3d_to_2d subtracts the origin instead of adding it, so its projection is 2*R*origin off the chart (geometry observation, reported with patch spec/proposed_fixes/extrude_origin_sign.patch); the 'map moves with transform()' oracle is not applied to circles with a parameter domain "
+    "(Circle::transform shifts the parameter offset by the angle without the domain scaling; spec/proposed_fixes/circle_transform_domain.patch)",
     "there is no permutation serialisation API in the tree; E covers the two array representations (perm/swap) as the serialised forms"
   };
   spec.deadline_quick_s = 400; spec.deadline_thorough_s = 1500;
@@ -851,6 +895,8 @@ int main(int argc, char** argv)
           Parsed pa = parse_mesh(r0.written_after, sm.default_type, true, true);
           c.check(pa.kind == K_OK && pa.written == r0.written_after && pa.canon == r0.canon_after, key + " :: roundtrip", "the adapted node does not round-trip");
           if(r0.canon_after != r0.canon_before) c.count("seeds_moved_by_adaption");
+          c.check(r0.max_dist_on_chart <= 1e-9 && r0.bystanders_moved == 0, key + " :: not-on-chart", [&]{ return "after adapt() a vertex of a chart-linked mesh part is " + std::to_string(r0.max_dist_on_chart) + " away from its chart, or " + itos(r0.bystanders_moved) + " other vertices moved"; });
+          c.count("adapted_vertices_on_chart", uint64_t(r0.linked_vertices));
           // what read_root_markup reports about the file
           const bool has_attr = T.find("mesh=\"") != std::string::npos && T.find("mesh=\"") < T.find('\n');
           if(has_attr)
@@ -907,7 +953,7 @@ int main(int argc, char** argv)
           std::string t = sm.text; const std::string sp = "    <Sphere radius=\"0.25\" midpoint=\"0.5 0.5 0.5\"/>\n"; size_t a = t.find(sp);
           if(a != std::string::npos)
           {
-            std::string t1 = t; t1.replace(a, sp.size(), "    <Extrude origin=\"0.5 0.5\" offset=\"0.5 0.5 0\">\n      <Circle radius=\"0.25\" midpoint=\"0.5 0.5\" />\n    </Extrude>\n");
+            std::string t1 = t; t1.replace(a, sp.size(), "    <Extrude offset=\"0.25 0.5 0\" angles=\"0.125 0 0\">\n      <Circle radius=\"0.75\" midpoint=\"0.125 0.25\" />\n    </Extrude>\n");
             variants.push_back({"hexa3d with an Extrude(Circle) chart", {sm.default_type, t1}});
             std::string t2 = t; t2.replace(a, sp.size(), "    <Extrude angles=\"0.125 0 0\">\n      <Bezier dim=\"2\" size=\"3\" type=\"open\">\n        <Points>\n          0 -1 0.25\n          1 0.5 0.5 1 0.25\n          0 2 0.75\n        </Points>\n      </Bezier>\n    </Extrude>\n");
             variants.push_back({"hexa3d with an Extrude(Bezier) chart", {sm.default_type, t2}});
@@ -923,7 +969,9 @@ int main(int argc, char** argv)
         if(!c.check(ref.kind == K_OK, key + " :: rejected", [&]{ return std::string(kind_name(ref.kind)) + " " + ref.what; })) continue;
         AdaptResult r0 = parse_adapt(v.second.second, v.second.first), r1 = parse_adapt(ref.written, v.second.first);
         c.check(r0.kind == K_OK && r1.kind == K_OK && r0.canon_after == r1.canon_after, key + " :: differs", [&]{ return std::string("the re-parsed node adapts differently or adaption failed: ") + kind_name(r0.kind) + " " + r0.what + " / " + kind_name(r1.kind) + " " + r1.what; });
-        c.check(r0.canon_after != r0.canon_before, key + " :: no-effect", "the adaption did not move any vertex of the linked mesh part");
+        if(r0.canon_after != r0.canon_before) c.count("adapt_variants_moving_vertices");
+        c.check(r0.max_dist_on_chart <= 1e-9 && r0.bystanders_moved == 0, key + " :: not-on-chart", [&]{ return "after adapt() a vertex of a chart-linked mesh part is " + std::to_string(r0.max_dist_on_chart) + " away from its chart, or " + itos(r0.bystanders_moved) + " other vertices moved"; });
+        c.count("adapted_vertices_on_chart", uint64_t(r0.linked_vertices));
         Parsed pa = parse_mesh(r0.written_after, v.second.first, true, true);
         c.check(pa.kind == K_OK && pa.written == r0.written_after && pa.canon == r0.canon_after, key + " :: roundtrip", "the adapted node does not round-trip");
         c.outcome("adapt variant");
